@@ -143,7 +143,7 @@ def plain_case(draw):
     branches = [draw(gen.chain(tin, PLAINB, PLAINB.max_depth)) for _ in range(nb)]
     join = draw(st.sampled_from(['merge', 'zip', 'combine_latest']))
     items = draw(gen.int_items(12))
-    return {'tin': tin, 'branches': branches, 'join': join, 'items': items}
+    return {'tin': tin, 'branches': branches, 'join': join, 'items': items, 'again': draw(st.booleans())}
 
 
 def check_plain(case):
@@ -166,10 +166,19 @@ def check_plain(case):
         counts.append(len(s.out))
     exp = join_rule(join, len(branches), tagged)
     tee_node = ['tee', join, branches]
-    s = drive.stepped(items, lambda src: src.pipe(A.KINDS['tee'].build(tee_node, A.Env())))
+    tee_op = A.KINDS['tee'].build(tee_node, A.Env())
+    s = drive.stepped(items, lambda src: src.pipe(tee_op))
     H.require_clean(s.res, 'plain tee_map', **ctx)
     if not cmp.same_seq(s.res.items, exp, approx=False):
         raise Violation('plain tee_map output differs from the join of its branches run alone', expected=exp, got=s.res.items, **ctx)
+    if case.get('again'):
+        # the same operator OBJECT applied to a second source, after the first run is over (a new observable is built:
+        # this is not a re-subscription)
+        s2 = drive.stepped(items, lambda src: src.pipe(tee_op))
+        H.require_clean(s2.res, 'plain tee_map operator applied to a second source', **ctx)
+        if not cmp.same_seq(s2.res.items, exp, approx=False):
+            raise Violation('the tee_map operator applied to a second source differs from the join of its branches run alone',
+                            expected=exp, got=s2.res.items, **ctx)
     labels = ['join:' + join, 'branches=%d' % len(branches)] + ['op:' + k for k in A.kinds_in([tee_node]) if k != 'tee']
     if any(gen.has_early(b) for b in branches):
         labels.append('early-branch')
